@@ -9,19 +9,24 @@
 From Verif Require Import Bytes Codec.
 
 Record part := mkP { p_id : N; p_store : N; p_cont : N }.
-Record obj := mkO { o_class : option bytes; o_parts : list part; o_meta : N; o_tags : N }.
-Definition okey := (N * N)%type.    (* bucket (0 unversioned, 1 versioning enabled), key index *)
+(* o_mp: the ETag is multipart-style (the object was built by AppendObject) *)
+Record obj := mkO { o_class : option bytes; o_parts : list part; o_meta : N; o_tags : N; o_mp : bool }.
+(* a row of the objects table: harness ordinal, version id = "null"?, delete marker?, is_latest, created_at rank *)
+Record ver := mkV { v_ord : N; v_null : bool; v_dm : bool; v_latest : bool; v_created : N; v_obj : obj }.
+Inductive status := Unversioned | Enabled | Suspended.
+Definition okey := (N * N)%type.    (* bucket (0 starts unversioned, 1 starts versioning-enabled), key index *)
 Definition okey_eqb (a b : okey) : bool := (fst a =? fst b)%N && (snd a =? snd b)%N.
 
 Record state := mkS {
-  s_objs : list (okey * list (N * obj));   (* versions of a key, newest first: ordinal, object *)
-  s_next : N;                              (* next version ordinal *)
+  s_objs : list (okey * list ver);         (* rows of a key, most recently inserted first *)
+  s_next : N;                              (* next row ordinal / created_at rank *)
   s_nextp : N;                             (* next fresh part id *)
   s_reg : list (N * N);                    (* part registry: part id -> reference count (> 0) *)
   s_blobs : list ((N * N) * N);            (* (store, part id) -> content id : what the stores hold *)
-  s_idx : list ((N * N) * N)               (* dedup index: (store, content id) -> part id *)
+  s_idx : list ((N * N) * N);              (* dedup index: (store, content id) -> part id *)
+  s_st0 : status; s_st1 : status           (* versioning status of the two buckets *)
 }.
-Definition init : state := mkS [] 0 0 [] [] [].
+Definition init : state := mkS [] 0 0 [] [] [] Unversioned Enabled.
 
 (* class -> store configuration; store 0 is the default store *)
 Definition config := list (bytes * N).
@@ -59,16 +64,17 @@ Fixpoint blob_get (k : N * N) (l : list ((N * N) * N)) : option N :=
 Definition blob_del (k : N * N) (l : list ((N * N) * N)) := filter (fun e => negb (pair_eqb k (fst e))) l.
 Definition idx_del_id (id : N) (l : list ((N * N) * N)) := filter (fun e => negb (id =? snd e)%N) l.
 
-Definition with_reg (s : state) r := mkS (s_objs s) (s_next s) (s_nextp s) r (s_blobs s) (s_idx s).
-Definition with_blobs (s : state) b := mkS (s_objs s) (s_next s) (s_nextp s) (s_reg s) b (s_idx s).
-Definition with_idx (s : state) i := mkS (s_objs s) (s_next s) (s_nextp s) (s_reg s) (s_blobs s) i.
-Definition with_objs (s : state) o := mkS o (s_next s) (s_nextp s) (s_reg s) (s_blobs s) (s_idx s).
+Definition with_reg (s : state) r := mkS (s_objs s) (s_next s) (s_nextp s) r (s_blobs s) (s_idx s) (s_st0 s) (s_st1 s).
+Definition with_blobs (s : state) b := mkS (s_objs s) (s_next s) (s_nextp s) (s_reg s) b (s_idx s) (s_st0 s) (s_st1 s).
+Definition with_idx (s : state) i := mkS (s_objs s) (s_next s) (s_nextp s) (s_reg s) (s_blobs s) i (s_st0 s) (s_st1 s).
+Definition with_objs (s : state) o := mkS o (s_next s) (s_nextp s) (s_reg s) (s_blobs s) (s_idx s) (s_st0 s) (s_st1 s).
+Definition with_nextp (s : state) n b i := mkS (s_objs s) (s_next s) n (s_reg s) b i (s_st0 s) (s_st1 s).
 
 (* removal of one part row: RemoveReferences; at zero the dedup entries of the id go and the part is
    deleted from the store recorded on the row (deleteUnreferencedParts -> ByName) *)
 Definition remove_row (s : state) (p : part) : state :=
   let '(r, zero) := reg_dec (p_id p) (s_reg s) in
-  if zero then mkS (s_objs s) (s_next s) (s_nextp s) r (blob_del (p_store p, p_id p) (s_blobs s)) (idx_del_id (p_id p) (s_idx s))
+  if zero then mkS (s_objs s) (s_next s) (s_nextp s) r (blob_del (p_store p, p_id p) (s_blobs s)) (idx_del_id (p_id p) (s_idx s)) (s_st0 s) (s_st1 s)
   else with_reg s r.
 Definition remove_rows (s : state) (ps : list part) : state := fold_left remove_row ps s.
 
@@ -80,7 +86,7 @@ Definition add_refs (s : state) (ids : list N) : state := with_reg s (fold_left 
    its reference was pre-acquired *)
 Definition write_fresh (s : state) (store cont : N) : state * part * bool :=
   let id := s_nextp s in
-  let s1 := mkS (s_objs s) (s_next s) (id + 1) (s_reg s) (((store, id), cont) :: s_blobs s) (s_idx s) in
+  let s1 := with_nextp s (id + 1) (((store, id), cont) :: s_blobs s) (s_idx s) in
   match blob_get (store, cont) (s_idx s1) with
   | Some e =>
       if (0 <? reg_get e (s_reg s1))%N then
@@ -93,75 +99,138 @@ Definition write_fresh (s : state) (store cont : N) : state * part * bool :=
 Definition register (s : state) (ps : list (part * bool)) : state :=
   add_refs s (map (fun pb => p_id (fst pb)) (filter (fun pb => negb (snd pb)) ps)).
 
-(* ---- objects ---- *)
-Fixpoint versions_of (k : okey) (l : list (okey * list (N * obj))) : list (N * obj) :=
+(* ---- rows of a key ---- *)
+Definition empty_obj : obj := mkO None [] 0 0 false.
+Fixpoint versions_of (k : okey) (l : list (okey * list ver)) : list ver :=
   match l with [] => [] | (k', vs) :: l' => if okey_eqb k k' then vs else versions_of k l' end.
-Fixpoint set_versions (k : okey) (vs : list (N * obj)) (l : list (okey * list (N * obj))) :=
+Fixpoint set_versions (k : okey) (vs : list ver) (l : list (okey * list ver)) :=
   match l with
   | [] => [(k, vs)]
   | (k', vs') :: l' => if okey_eqb k k' then (k, vs) :: l' else (k', vs') :: set_versions k vs l'
   end.
-Fixpoint find_ord (n : N) (vs : list (N * obj)) : option obj :=
-  match vs with [] => None | (m, o) :: vs' => if (n =? m)%N then Some o else find_ord n vs' end.
-Definition find_version (s : state) (k : okey) (v : option N) : option obj :=
-  match v with
-  | None => match versions_of k (s_objs s) with [] => None | (_, o) :: _ => Some o end
-  | Some n => if (fst k =? 1)%N then find_ord n (versions_of k (s_objs s)) else None
-  end.
-Definition known_version (s : state) (k : okey) (v : option N) : bool :=
-  match v with
-  | None => true
-  | Some n => if (fst k =? 1)%N then match find_ord n (versions_of k (s_objs s)) with Some _ => true | None => false end else false
-  end.
-Fixpoint update_ord (n : N) (o' : obj) (vs : list (N * obj)) : list (N * obj) :=
-  match vs with
-  | [] => []
-  | (m, o) :: vs' => if (n =? m)%N then (m, o') :: vs' else (m, o) :: update_ord n o' vs'
-  end.
-Definition replace_version (s : state) (k : okey) (v : option N) (o' : obj) : state :=
-  let vs := versions_of k (s_objs s) in
-  let vs' := match v with
-             | None => match vs with [] => [] | (m, _) :: r => (m, o') :: r end
-             | Some n => update_ord n o' vs
-             end in
-  with_objs s (set_versions k vs' (s_objs s)).
-Fixpoint remove_ord (n : N) (vs : list (N * obj)) : list (N * obj) :=
-  match vs with [] => [] | (m, o) :: vs' => if (n =? m)%N then vs' else (m, o) :: remove_ord n vs' end.
+Definition status_of (s : state) (k : okey) : status := if (fst k =? 1)%N then s_st1 s else s_st0 s.
 
-(* metadata-store PutObject: the unversioned bucket replaces the null version's rows (old rows removed,
-   then the new rows saved); the versioned bucket adds a version *)
+(* how an operation addresses a row: no version id (the row with is_latest), the version id of the row that
+   was created as ordinal n, the literal version id "null", or a well-formed id that no row has *)
+Inductive vsel := VLatest | VOrd (n : N) | VNull | VUnknown.
+Fixpoint find_idx (f : ver -> bool) (vs : list ver) : option nat :=
+  match vs with
+  | [] => None
+  | r :: vs' => if f r then Some O else option_map S (find_idx f vs')
+  end.
+Definition resolve (vs : list ver) (v : vsel) : option nat :=
+  match v with
+  | VLatest => find_idx v_latest vs
+  | VOrd n => find_idx (fun r => (v_ord r =? n)%N) vs
+  | VNull => find_idx v_null vs
+  | VUnknown => None
+  end.
+Definition find_row (s : state) (k : okey) (v : vsel) : option ver :=
+  match resolve (versions_of k (s_objs s)) v with
+  | Some i => nth_error (versions_of k (s_objs s)) i
+  | None => None
+  end.
+(* the harness answers NoSuchVersion itself for an ordinal that is not (or no longer) a row of the key *)
+Definition known_version (s : state) (k : okey) (v : vsel) : bool :=
+  match v with
+  | VOrd _ => match resolve (versions_of k (s_objs s)) v with Some _ => true | None => false end
+  | _ => true
+  end.
+
+Fixpoint update_nth (i : nat) (g : ver -> ver) (vs : list ver) : list ver :=
+  match vs, i with
+  | [], _ => []
+  | r :: vs', O => g r :: vs'
+  | r :: vs', S j => r :: update_nth j g vs'
+  end.
+Fixpoint remove_nth (i : nat) (vs : list ver) : list ver :=
+  match vs, i with
+  | [], _ => []
+  | _ :: vs', O => vs'
+  | r :: vs', S j => r :: remove_nth j vs'
+  end.
+Definition set_obj (o : obj) (r : ver) : ver := mkV (v_ord r) (v_null r) (v_dm r) (v_latest r) (v_created r) o.
+Definition set_latest (b : bool) (r : ver) : ver := mkV (v_ord r) (v_null r) (v_dm r) b (v_created r) (v_obj r).
+Definition demote (vs : list ver) : list ver := map (fun r => if v_latest r then set_latest false r else r) vs.
+(* index of the row with the greatest created_at rank (FindLatestObject...ExcludingID ORDER BY created_at DESC) *)
+Fixpoint newest (vs : list ver) : option (nat * N) :=
+  match vs with
+  | [] => None
+  | r :: vs' =>
+      match newest vs' with
+      | Some (i, c) => if (c <? v_created r)%N then Some (O, v_created r) else Some (S i, c)
+      | None => Some (O, v_created r)
+      end
+  end.
+Definition promote (vs : list ver) : list ver :=
+  match newest vs with Some (i, _) => update_nth i (set_latest true) vs | None => vs end.
+
+Definition replace_row_obj (s : state) (k : okey) (i : nat) (o' : obj) : state :=
+  with_objs s (set_versions k (update_nth i (set_obj o') (versions_of k (s_objs s))) (s_objs s)).
+Definition bump (s : state) : state :=
+  mkS (s_objs s) (s_next s + 1) (s_nextp s) (s_reg s) (s_blobs s) (s_idx s) (s_st0 s) (s_st1 s).
+
+(* metadata-store PutObject.  Enabled: the current row is demoted and a row with a fresh version id is added.
+   Unversioned / Suspended: the current row is demoted and the row with version id "null" is overwritten in place
+   (it keeps its created_at; its old part rows are removed before the new ones are saved) or created *)
 Definition install (s : state) (k : okey) (o : obj) (flags : list bool) : state :=
   let rows := combine (o_parts o) flags in
-  if (fst k =? 1)%N then
-    register (mkS (set_versions k ((s_next s, o) :: versions_of k (s_objs s)) (s_objs s)) (s_next s + 1)
-                  (s_nextp s) (s_reg s) (s_blobs s) (s_idx s)) rows
-  else
-    let old := match versions_of k (s_objs s) with (_, oo) :: _ => o_parts oo | [] => [] end in
-    register (remove_rows (with_objs s (set_versions k [(0%N, o)] (s_objs s))) old) rows.
+  let vs := demote (versions_of k (s_objs s)) in
+  let n := s_next s in
+  match status_of s k with
+  | Enabled =>
+      register (bump (with_objs s (set_versions k (mkV n false false true n o :: vs) (s_objs s)))) rows
+  | _ =>
+      match find_idx v_null vs with
+      | Some i =>
+          let old := match nth_error vs i with Some r => r | None => mkV 0 true false false 0 empty_obj end in
+          let vs' := update_nth i (fun r => mkV n true false true (v_created r) o) vs in
+          register (remove_rows (bump (with_objs s (set_versions k vs' (s_objs s)))) (o_parts (v_obj old))) rows
+      | None =>
+          register (bump (with_objs s (set_versions k (mkV n true false true n o :: vs) (s_objs s)))) rows
+      end
+  end.
 
-Inductive err := NoSuchKey | NoSuchVersion | InvalidStorageClass | BadOp.
+Inductive err := NoSuchKey | NoSuchVersion | InvalidStorageClass | PreconditionFailed | DeleteMarker | BadOp.
 
 Definition do_put (cfg : config) (s : state) (k : okey) (cls : option bytes) (cont meta tags : N) : state * option err :=
   let '(s1, p, pre) := write_fresh s (store_for cfg cls) cont in
-  (install s1 k (mkO cls [p] meta tags) [pre], None).
+  (install s1 k (mkO cls [p] meta tags false) [pre], None).
 
-(* AppendObject: the new part goes to the store of the object's current class; unversioned: the row is
-   appended; versioning enabled: a new version shares the old parts (references pre-acquired) and — as
-   the metadata layer passes a bare object to PutObject — has no class, metadata or tags *)
+(* the current object as AppendObject sees it: a delete marker counts as absent *)
+Definition current_object (s : state) (k : okey) : option (nat * ver) :=
+  match resolve (versions_of k (s_objs s)) VLatest with
+  | Some i => match nth_error (versions_of k (s_objs s)) i with
+              | Some r => if v_dm r then None else Some (i, r)
+              | None => None end
+  | None => None
+  end.
+
+(* AppendObject: the new part goes to the store of the object's current class; unversioned: the row is updated
+   in place; versioning enabled: a new version shares the old parts (references pre-acquired) and — as the
+   metadata layer passes a bare object to PutObject — has no class, metadata or tags.  Suspended buckets are not
+   exercised (C02 finding: the current row is updated in place whatever it is) *)
 Definition do_append (cfg : config) (s : state) (k : okey) (cont : N) : state * option err :=
-  match find_version s k None with
-  | None =>
-      let '(s1, p, pre) := write_fresh s (store_for cfg None) cont in
-      (install s1 k (mkO None [p] 0 0) [pre], None)
-  | Some o =>
-      let '(s1, p, pre) := write_fresh s (store_for cfg (o_class o)) cont in
-      if (fst k =? 1)%N then
-        if all_live s1 (map p_id (o_parts o)) then
-          (install (add_refs s1 (map p_id (o_parts o))) k (mkO None (o_parts o ++ [p]) 0 0)
-                   (map (fun _ => true) (o_parts o) ++ [pre]), None)
-        else (s, Some NoSuchKey)
-      else
-        (register (replace_version s1 k None (mkO (o_class o) (o_parts o ++ [p]) (o_meta o) (o_tags o))) [(p, pre)], None)
+  match status_of s k with
+  | Suspended => (s, Some BadOp)
+  | st =>
+    match current_object s k with
+    | None =>
+        let '(s1, p, pre) := write_fresh s (store_for cfg None) cont in
+        (install s1 k (mkO None [p] 0 0 true) [pre], None)
+    | Some (i, r) =>
+        let o := v_obj r in
+        let '(s1, p, pre) := write_fresh s (store_for cfg (o_class o)) cont in
+        match st with
+        | Enabled =>
+            if all_live s1 (map p_id (o_parts o)) then
+              (install (add_refs s1 (map p_id (o_parts o))) k (mkO None (o_parts o ++ [p]) 0 0 true)
+                       (map (fun _ => true) (o_parts o) ++ [pre]), None)
+            else (s, Some NoSuchKey)
+        | _ =>
+            (register (replace_row_obj s1 k i (mkO (o_class o) (o_parts o ++ [p]) (o_meta o) (o_tags o) true)) [(p, pre)], None)
+        end
+    end
   end.
 
 (* CopyObject (full copy): same-store parts are shared; cross-store parts are looked up in the dedup
@@ -187,26 +256,29 @@ Fixpoint copy_parts (s : state) (dst : N) (ps : list part) : state * list (part 
             | None => (s0, [], [], false)           (* source bytes missing: GetPart fails *)
             | Some c =>
                 let id := s_nextp s0 in
-                let s1 := mkS (s_objs s0) (s_next s0) (id + 1) (s_reg s0) (((dst, id), c) :: s_blobs s0)
-                              (((dst, p_cont p), id) :: s_idx s0) in
+                let s1 := with_nextp s0 (id + 1) (((dst, id), c) :: s_blobs s0) (((dst, p_cont p), id) :: s_idx s0) in
                 let '(s', rows, shared, ok) := copy_parts s1 dst ps' in
                 (s', (mkP id dst (p_cont p), false) :: rows, shared, ok)
             end
         end
   end.
-Definition do_copy (cfg : config) (s : state) (src : okey) (sv : option N) (dst : okey) (cls : option bytes) : state * option err :=
+Definition do_copy (cfg : config) (s : state) (src : okey) (sv : vsel) (dst : okey) (cls : option bytes) : state * option err :=
   if negb (known_version s src sv) then (s, Some NoSuchVersion) else
-  match find_version s src sv with
+  match find_row s src sv with
   | None => (s, Some NoSuchKey)
-  | Some o =>
+  | Some r =>
+      if v_dm r then (s, Some DeleteMarker) else
+      let o := v_obj r in
       let '(s1, rows, shared, ok) := copy_parts s (store_for cfg cls) (o_parts o) in
       if negb ok then (s, Some NoSuchKey)
       else if negb (all_live s1 shared) then (s, Some NoSuchKey)
-      else (install (add_refs s1 shared) dst (mkO cls (map fst rows) (o_meta o) (o_tags o)) (map snd rows), None)
+      else (install (add_refs s1 shared) dst (mkO cls (map fst rows) (o_meta o) (o_tags o) (o_mp o)) (map snd rows), None)
   end.
 
 (* TransitionObjectStorageClass: parts already in the target store stay (reference pre-acquired), the
-   others are copied under fresh ids (no dedup lookup); TransitionObject then swaps the rows *)
+   others are copied under fresh ids (no dedup lookup); TransitionObject then swaps the rows of the
+   ADDRESSED row.  The decision is taken per part from the store recorded on the part row, never from what
+   the object's current class maps to *)
 Fixpoint move_parts (s : state) (dst : N) (ps : list part) : state * list (part * bool) * list N * bool :=
   match ps with
   | [] => (s, [], [], true)
@@ -218,49 +290,102 @@ Fixpoint move_parts (s : state) (dst : N) (ps : list part) : state * list (part 
         | None => (s, [], [], false)
         | Some c =>
             let id := s_nextp s in
-            let s1 := mkS (s_objs s) (s_next s) (id + 1) (s_reg s) (((dst, id), c) :: s_blobs s) (s_idx s) in
+            let s1 := with_nextp s (id + 1) (((dst, id), c) :: s_blobs s) (s_idx s) in
             let '(s', rows, shared, ok) := move_parts s1 dst ps' in
             (s', (mkP id dst (p_cont p), false) :: rows, shared, ok)
         end
   end.
-Definition do_transition (cfg : config) (s : state) (k : okey) (v : option N) (c : bytes) : state * option err :=
-  if negb (known_version s k v) then (s, Some NoSuchVersion)
-  else if negb (valid_class c) then (s, Some InvalidStorageClass)
-  else match find_version s k v with
-       | None => (s, Some NoSuchKey)
-       | Some o =>
-           let '(s1, rows, shared, ok) := move_parts s (cfg_get c cfg) (o_parts o) in
-           if negb ok then (s, Some NoSuchKey)
-           else if negb (all_live s1 shared) then (s, Some NoSuchKey)
-           else
-             let s2 := add_refs s1 shared in
-             let s3 := replace_version s2 k v (mkO (Some c) (map fst rows) (o_meta o) (o_tags o)) in
-             (register (remove_rows s3 (o_parts o)) rows, None)
-       end.
 
-(* DeleteObject: unversioned key delete, or delete of one version in the versioned bucket *)
-Definition do_delete (s : state) (k : okey) (v : option N) : state * option err :=
-  match v, (fst k =? 1)%N with
-  | None, false =>
-      match versions_of k (s_objs s) with
-      | [] => (s, None)
-      | (_, o) :: _ => (remove_rows (with_objs s (set_versions k [] (s_objs s))) (o_parts o), None)
-      end
-  | Some n, true =>
-      match find_ord n (versions_of k (s_objs s)) with
-      | None => (s, Some NoSuchVersion)
-      | Some o => (remove_rows (with_objs s (set_versions k (remove_ord n (versions_of k (s_objs s))) (s_objs s))) (o_parts o), None)
-      end
-  | _, _ => (s, Some BadOp)
+(* ETag identity: same content sequence and same style *)
+Fixpoint list_N_eqb (a b : list N) : bool :=
+  match a, b with
+  | [], [] => true
+  | x :: a', y :: b' => (x =? y)%N && list_N_eqb a' b'
+  | _, _ => false
   end.
+Definition etag_eqb (a b : obj) : bool :=
+  list_N_eqb (map p_cont (o_parts a)) (map p_cont (o_parts b)) && Bool.eqb (o_mp a) (o_mp b).
+(* If-Match of a transition: none, "*", or the ETag that the row created as ordinal n of the same key has *)
+Inductive ifmatch := IMNone | IMStar | IMOrd (n : N).
+
+Definition do_transition (cfg : config) (s : state) (k : okey) (v : vsel) (c : bytes) (im : ifmatch) : state * option err :=
+  if negb (known_version s k v) then (s, Some NoSuchVersion) else
+  match (match im with
+         | IMOrd n => match find_row s k (VOrd n) with
+                      | Some r => if v_dm r then None else Some (Some (v_obj r))
+                      | None => None end
+         | _ => Some None end) with
+  | None => (s, Some BadOp)           (* the harness cannot name that ETag *)
+  | Some ref =>
+    if negb (valid_class c) then (s, Some InvalidStorageClass)
+    else match resolve (versions_of k (s_objs s)) v with
+         | None => (s, Some NoSuchKey)
+         | Some i =>
+           match nth_error (versions_of k (s_objs s)) i with
+           | None => (s, Some NoSuchKey)
+           | Some r =>
+             if v_dm r then (s, Some NoSuchKey) else
+             let o := v_obj r in
+             if (match ref with Some ro => negb (etag_eqb o ro) | None => false end) then (s, Some PreconditionFailed) else
+             let '(s1, rows, shared, ok) := move_parts s (cfg_get c cfg) (o_parts o) in
+             if negb ok then (s, Some NoSuchKey)
+             else if negb (all_live s1 shared) then (s, Some NoSuchKey)
+             else
+               let s2 := add_refs s1 shared in
+               let s3 := replace_row_obj s2 k i (mkO (Some c) (map fst rows) (o_meta o) (o_tags o) (o_mp o)) in
+               (register (remove_rows s3 (o_parts o)) rows, None)
+           end
+         end
+  end.
+
+(* DeleteObject *)
+Definition drop_row (s : state) (k : okey) (i : nat) (fix_latest : bool) : state :=
+  let vs := versions_of k (s_objs s) in
+  match nth_error vs i with
+  | None => s
+  | Some r =>
+      let vs' := remove_nth i vs in
+      let vs'' := if fix_latest && v_latest r then promote vs' else vs' in
+      remove_rows (with_objs s (set_versions k vs'' (s_objs s))) (o_parts (v_obj r))
+  end.
+Definition add_marker (s : state) (k : okey) : state :=
+  let n := s_next s in
+  bump (with_objs s (set_versions k (mkV n false true true n empty_obj :: demote (versions_of k (s_objs s))) (s_objs s))).
+Definition do_delete (s : state) (k : okey) (v : vsel) : state * option err :=
+  if negb (known_version s k v) then (s, Some NoSuchVersion) else
+  match v with
+  | VLatest =>
+      match status_of s k with
+      | Unversioned =>
+          match resolve (versions_of k (s_objs s)) VLatest with
+          | Some i => (drop_row s k i false, None)
+          | None => (s, None)
+          end
+      | Enabled => (add_marker s k, None)
+      | Suspended =>
+          let s1 := match resolve (versions_of k (s_objs s)) VNull with
+                    | Some i => drop_row s k i false | None => s end in
+          (add_marker s1 k, None)
+      end
+  | _ =>
+      match resolve (versions_of k (s_objs s)) v with
+      | Some i => (drop_row s k i true, None)
+      | None => (s, None)                 (* unknown version: silently succeeds *)
+      end
+  end.
+
+Definition set_status (s : state) (b : N) (st : status) : state :=
+  if (b =? 1)%N then mkS (s_objs s) (s_next s) (s_nextp s) (s_reg s) (s_blobs s) (s_idx s) (s_st0 s) st
+  else mkS (s_objs s) (s_next s) (s_nextp s) (s_reg s) (s_blobs s) (s_idx s) st (s_st1 s).
 
 Inductive op :=
 | OPut (k : okey) (cls : option bytes) (cont meta tags : N)
 | OAppend (k : okey) (cont : N)
-| OCopy (src : okey) (sv : option N) (dst : okey) (cls : option bytes)
-| OTransition (k : okey) (v : option N) (cls : bytes)
-| ODelete (k : okey) (v : option N)
-| ORead (k : okey) (v : option N)
+| OCopy (src : okey) (sv : vsel) (dst : okey) (cls : option bytes)
+| OTransition (k : okey) (v : vsel) (cls : bytes) (im : ifmatch)
+| ODelete (k : okey) (v : vsel)
+| OVersioning (b : N) (st : status)
+| ORead (k : okey) (v : vsel)
 | OCounts
 | OSweep
 | OBad.
@@ -270,8 +395,9 @@ Definition step (cfg : config) (s : state) (o : op) : state * option err :=
   | OPut k cls c m t => do_put cfg s k cls c m t
   | OAppend k c => do_append cfg s k c
   | OCopy src sv dst cls => do_copy cfg s src sv dst cls
-  | OTransition k v c => do_transition cfg s k v c
+  | OTransition k v c im => do_transition cfg s k v c im
   | ODelete k v => do_delete s k v
+  | OVersioning b st => (set_status s b st, None)
   | ORead _ _ | OCounts | OSweep => (s, None)
   | OBad => (s, Some BadOp)
   end.
@@ -283,8 +409,8 @@ Fixpoint read_parts (s : state) (ps : list part) : option (list N) :=
   | p :: ps' => match blob_get (p_store p, p_id p) (s_blobs s), read_parts s ps' with
                 | Some c, Some r => Some (c :: r) | _, _ => None end
   end.
-Definition read (s : state) (k : okey) (v : option N) : option (list N) :=
-  match find_version s k v with None => None | Some o => read_parts s (o_parts o) end.
+Definition read (s : state) (k : okey) (v : vsel) : option (list N) :=
+  match find_row s k v with None => None | Some r => read_parts s (o_parts (v_obj r)) end.
 
 (* a history in phases: each phase has its own class -> store configuration *)
 Fixpoint run (cfg : config) (s : state) (ops : list op) : state :=
@@ -295,15 +421,18 @@ Fixpoint run_phases (s : state) (phases : list (config * list op)) : state :=
 (* ------------------------------------------------------------------------------------------ *)
 (* printing                                                                                    *)
 Definition show_list (l : list N) : bytes := match l with [] => B"-" | _ => join B"." (map show_N l) end.
-Definition show_read (s : state) (k : okey) (v : option N) : bytes :=
+Definition show_etag (o : obj) : bytes := if o_mp o then "m"%byte :: show_nat (length (o_parts o)) else B"s".
+Definition show_read (s : state) (k : okey) (v : vsel) : bytes :=
   if negb (known_version s k v) then B"NoSuchVersion" else
-  match find_version s k v with
+  match find_row s k v with
   | None => B"NoSuchKey"
-  | Some o =>
+  | Some r =>
+      if v_dm r then B"DeleteMarker" else
+      let o := v_obj r in
       match read_parts s (o_parts o) with
       | None => B"Unreadable"
       | Some cs => join B"|" [tok_bytes (effective_class (o_class o)); show_list cs; show_N (o_meta o); show_N (o_tags o);
-                              show_list (map p_store (o_parts o))]
+                              show_list (map p_store (o_parts o)); show_etag o]
       end
   end.
 (* number of DISTINCT contents a store holds.  (The number of part files is not compared: the collector's
@@ -314,26 +443,27 @@ Definition count_store (s : state) (st : N) : N :=
   N.of_nat (length (nodup N.eq_dec (map snd (filter (fun e => (fst (fst e) =? st)%N) (s_blobs s))))).
 Definition show_counts (s : state) : bytes :=
   join B"," [show_N (count_store s 0); show_N (count_store s 1); show_N (count_store s 2)].
-Definition all_versions (s : state) : list (N * okey) :=
-  flat_map (fun e => if (fst (fst e) =? 1)%N then map (fun v => (fst v, fst e)) (snd e) else []) (s_objs s).
+Definition all_rows (s : state) : list (N * okey) :=
+  flat_map (fun e => map (fun r => (v_ord r, fst e)) (snd e)) (s_objs s).
 Fixpoint find_owner (n : N) (l : list (N * okey)) : option okey :=
   match l with [] => None | (m, k) :: l' => if (n =? m)%N then Some k else find_owner n l' end.
 Fixpoint sweep_versions (s : state) (fuel : nat) (n : N) : list bytes :=
   match fuel with
   | O => []
   | S fuel' =>
-      match find_owner n (all_versions s) with
-      | Some k => show_read s k (Some n) :: sweep_versions s fuel' (n + 1)
+      match find_owner n (all_rows s) with
+      | Some k => show_read s k (VOrd n) :: sweep_versions s fuel' (n + 1)
       | None => sweep_versions s fuel' (n + 1)
       end
   end.
 Definition sweep (s : state) : bytes :=
-  join B"/" (map (fun bk => show_read s bk None) [(0, 0); (0, 1); (0, 2); (1, 0); (1, 1); (1, 2)]%N
+  join B"/" (map (fun bk => show_read s bk VLatest) [(0, 0); (0, 1); (0, 2); (1, 0); (1, 1); (1, 2)]%N
              ++ sweep_versions s (N.to_nat (s_next s)) 0 ++ [show_counts s]).
 Definition show_err (e : err) : bytes :=
   match e with
   | NoSuchKey => B"NoSuchKey" | NoSuchVersion => B"NoSuchVersion"
-  | InvalidStorageClass => B"InvalidStorageClass" | BadOp => B"BadOp"
+  | InvalidStorageClass => B"InvalidStorageClass" | PreconditionFailed => B"PreconditionFailed"
+  | DeleteMarker => B"DeleteMarker" | BadOp => B"BadOp"
   end.
 Definition show_result (s : state) (o : op) (r : option err) : bytes :=
   match r with
@@ -346,14 +476,25 @@ Definition show_result (s : state) (o : op) (r : option err) : bytes :=
             end
   end.
 
-(* ---- line protocol:  <cfg>|<op> <op> ... <cfg>|<op> ...   a token starting with "M=" switches the
-        configuration: M=hexclass.store,hexclass.store  (M=_ : everything in the default store) ---- *)
+(* ---- line protocol:  h <tok> <tok> ...   a token starting with "M=" switches the configuration:
+        M=hexclass.store,hexclass.store  (M=_ : everything in the default store).
+        version selector: L | <ordinal> | X (the literal id "null") | U (an id no row has) ---- *)
 Definition parse_small (max : N) (t : bytes) : option N :=
   match parse_N t with Some n => if (n <? max)%N then Some n else None | None => None end.
 Definition parse_okey (b k : bytes) : option okey :=
   match parse_small 2 b, parse_small 3 k with Some x, Some y => Some (x, y) | _, _ => None end.
-Definition parse_ver (t : bytes) : option (option N) :=
-  if bytes_eqb t B"L" then Some None else option_map Some (parse_N t).
+Definition parse_ver (t : bytes) : option vsel :=
+  if bytes_eqb t B"L" then Some VLatest
+  else if bytes_eqb t B"X" then Some VNull
+  else if bytes_eqb t B"U" then Some VUnknown
+  else option_map VOrd (parse_N t).
+Definition parse_im (t : bytes) : option ifmatch :=
+  if bytes_eqb t B"N" then Some IMNone
+  else if bytes_eqb t B"*" then Some IMStar
+  else match t with
+       | c :: r => if beqb c "e"%byte then option_map IMOrd (parse_N r) else None
+       | [] => None
+       end.
 Definition parse_cls (t : bytes) : option (option bytes) :=
   if bytes_eqb t B"N" then Some None else option_map Some (untok_bytes t).
 Definition parse_cfg_item (t : bytes) : option (bytes * N) :=
@@ -384,10 +525,17 @@ Definition parse_op (t : bytes) : op :=
       else if bytes_eqb kind B"R" then
         match parse_okey b k, parse_ver x with Some ok, Some v => ORead ok v | _, _ => OBad end
       else OBad
-  | [kind; b; k; v; c] =>
+  | [kind; b; k; v; c; im] =>
       if bytes_eqb kind B"T" then
-        match parse_okey b k, parse_ver v, untok_bytes c with
-        | Some ok, Some vv, Some cls => OTransition ok vv cls | _, _, _ => OBad end
+        match parse_okey b k, parse_ver v, untok_bytes c, parse_im im with
+        | Some ok, Some vv, Some cls, Some i => OTransition ok vv cls i | _, _, _, _ => OBad end
+      else OBad
+  | [kind; b; st] =>
+      if bytes_eqb kind B"V" then
+        match parse_small 2 b with
+        | Some bb => if bytes_eqb st B"E" then OVersioning bb Enabled
+                     else if bytes_eqb st B"S" then OVersioning bb Suspended else OBad
+        | None => OBad end
       else OBad
   | [kind] => if bytes_eqb kind B"N" then OCounts else if bytes_eqb kind B"S" then OSweep else OBad
   | _ => OBad
